@@ -1,5 +1,7 @@
 package stringlib
 
+import "math"
+
 type packsizer struct {
 	packFormatReader
 	size uint
@@ -58,7 +60,9 @@ func (s *packsizer) align(n uint) bool {
 			return false
 		}
 		if r := s.size % n; r != 0 {
-			s.size += n - r
+			if !s.inc(n - r) {
+				return false
+			}
 		}
 	}
 	if s.alignOnly {
@@ -70,6 +74,11 @@ func (s *packsizer) align(n uint) bool {
 }
 
 func (s *packsizer) inc(n uint) bool {
+	if n > math.MaxInt64 || s.size > math.MaxInt64-n {
+		// The size must fit a Lua integer
+		s.err = errResultTooLarge
+		return false
+	}
 	s.size += n
 	return true
 }
